@@ -483,6 +483,36 @@ fn frontends_case(ctx: &mut Ctx, rng: &mut Rng) {
     if cl.is_empty() {
         return;
     }
+    // cnf_new / compile through C also with empty clauses in the list (the text-based and
+    // heuristic front ends below keep to clause lists without them, S9)
+    if rng.chance(1, 4) {
+        let mut with_empty = cl.clone();
+        with_empty.insert(rng.below(with_empty.len() + 1), vec![]);
+        if rng.chance(1, 3) {
+            with_empty.push(vec![]);
+        }
+        let native = clauses_to_cnf(&with_empty);
+        unsafe {
+            let mut lits: Vec<Vec<Literal>> = with_empty.iter().map(|c| c.iter().map(|(v, p)| literal_new(VarLabel::new(*v as u64), *p)).collect()).collect();
+            let clauses: Vec<Clause> = lits.iter_mut().map(|l| Clause { vars: l.as_mut_ptr(), len: l.len() }).collect();
+            let c_cnf = cnf_new(clauses.as_ptr(), clauses.len());
+            ctx.count("c_frontend_calls", 1);
+            ctx.count("c_cnf_new_with_empty_clause", 1);
+            if *c_cnf != native {
+                ctx.violation("ffi.cnf_new", "cnf_new differs from Cnf::new on a clause list with an empty clause",
+                    json!({"clauses": clauses_json(&with_empty)}));
+            } else {
+                let nn = usize::max(native.num_vars(), 1);
+                let cb = mk_bdd_manager_default_order(nn as u64);
+                let cr = robdd_builder_compile_cnf(cb, c_cnf);
+                if !bdd_is_false(cr) {
+                    ctx.violation("ffi.robdd_compile_cnf", "a CNF with an empty clause compiled through C is not false",
+                        json!({"clauses": clauses_json(&with_empty)}));
+                }
+                free_bdd_manager(cb);
+            }
+        }
+    }
     let n = clauses_num_vars(&cl);
     let t = clauses_tt(&cl, n);
     let info = json!({"clauses": clauses_json(&cl)});
